@@ -810,7 +810,8 @@ class Address(object):
         script_type = addr_dict['script_type']
         witness_type = addr_dict['witness_type']
         return Address(hashed_data=public_key_hash_bytes, prefix=prefix, script_type=script_type,
-                       witness_type=witness_type, compressed=compressed, encoding=addr_dict['encoding'], depth=depth,
+                       witness_type=witness_type, witver=addr_dict['witver'] or 0,
+                       compressed=compressed, encoding=addr_dict['encoding'], depth=depth,
                        change=change, address_index=address_index, network=network, network_overrides=network_overrides)
 
     def __init__(self, data='', hashed_data='', prefix=None, script_type=None,
